@@ -243,3 +243,21 @@ func init() {
 		return nil
 	}
 }
+
+func init() {
+	intrinsics["vpSleepMs"] = func(ex *Exec, c *frame, fn *ssa.Function, a []Value) Value {
+		ex.advanceClock(ex.tc.Bin(OMul, a[0].(*Term), ex.i64(1000000)))
+		return nil
+	}
+}
+
+func init() {
+	// vpNeedConcrete(x): the path is outside the stated bound unless x is a constant here (used where the code under
+	// test would push a symbolic instant through float seconds).
+	intrinsics["vpNeedConcrete"] = func(ex *Exec, c *frame, fn *ssa.Function, a []Value) Value {
+		if !a[0].(*Term).IsConst() {
+			panic(pathEnd{"infeasible", "vpNeedConcrete: symbolic value (outside the bound)"})
+		}
+		return nil
+	}
+}
